@@ -37,15 +37,16 @@ type wit struct {
 
 // sink is the wrapped PacketWriter double: copies each packet on receipt.
 type sink struct {
-	got    [][]byte
-	failAt int
-	closed int
+	got     [][]byte
+	failAt  int
+	failCnt int // the count the failing write reports together with its error (0, partial or the full 188)
+	closed  int
 }
 
 func (s *sink) WritePacket(p *packet.Packet) (int, error) {
 	if len(s.got) == s.failAt {
 		s.failAt = -2 // fail once; a later delivery is then visible in got
-		return 0, errW
+		return s.failCnt, errW
 	}
 	s.got = append(s.got, append([]byte{}, p[:]...))
 	return packet.PacketSize, nil
@@ -176,7 +177,7 @@ func checkDeliveries(c *mon.Ctx, op string, s *sink, data []byte, exp int, w wit
 func doWrite(c *mon.Ctx, k, tail, failW, ad int, r *gen.Rand) {
 	data := r.Bytes(k*188 + tail)
 	snap := append([]byte{}, data...)
-	s := &sink{failAt: failW}
+	s := &sink{failAt: failW, failCnt: []int{0, 0, 100, 188}[r.Intn(4)]}
 	w, aname := adapter(ad, s)
 	n, err := w.Write(data)
 	c.Eval(1)
@@ -197,6 +198,7 @@ func doWrite(c *mon.Ctx, k, tail, failW, ad int, r *gen.Rand) {
 	if failW >= 0 && failW < k {
 		exp = failW
 		c.Count("write.injected_failure")
+		c.Count(fmt.Sprintf("write.injected_failure_reporting_%d_bytes", s.failCnt))
 		if err != errW {
 			wt.Got, wt.Want = fmt.Sprint(err), errW.Error()
 			c.Fail("Write:writer-error-not-returned", fmt.Sprintf("packet write %d failed but Write returned err=%v", failW, err), wt)
@@ -236,7 +238,7 @@ func failClass(f, k int) string {
 
 func doReadFrom(c *mon.Ctx, k, tail, failW, failR, rk, ad int, r *gen.Rand) {
 	data := r.Bytes(k*188 + tail)
-	s := &sink{failAt: failW}
+	s := &sink{failAt: failW, failCnt: []int{0, 0, 100, 188}[r.Intn(4)]}
 	w, aname := adapter(ad, s)
 	rf, ok := w.(io.ReaderFrom)
 	c.Eval(1)
@@ -272,7 +274,8 @@ func doReadFrom(c *mon.Ctx, k, tail, failW, failR, rk, ad int, r *gen.Rand) {
 		return
 	}
 	wt.Got = fmt.Sprintf("deliveries=%d n=%d err=%v", len(s.got), n, err)
-	if n != int64(exp*188) {
+	// a failing write may itself report bytes written; whether they count is not stated
+	if n != int64(exp*188) && !(expErr == errW && n == int64(exp*188+s.failCnt)) {
 		c.Fail("ReadFrom:count", fmt.Sprintf("ReadFrom delivered %d packets but returned n=%d", exp, n), wt)
 	}
 	if err != expErr {
